@@ -254,6 +254,49 @@ def run_case(res, wd, case):
     return run, s
 
 
+def write_fault_case(res, wd, case, r):
+    """A rewrite of the output file fails (the file system refuses the
+    temporary file): ddSMT may stop, but it must not carry on from an input
+    that is not on disk - the next content would not derive from its
+    predecessor, and the file left at exit would not be the last adopted
+    input."""
+    import hashlib
+    text, rules, opts, delay, inj, desc = case
+    k = r.choice([1, 1, 2, 3])
+    cfg = {'monitors': MONITORS, 'write_text': True,
+           'fail_write': {'write': k}}
+    run = realrun.run_ddsmt(wd, text, rules, opts=opts, delay=delay,
+                            launcher=cfg)
+    res.count('evaluations')
+    res.count('write_fault_runs')
+    if run.timed_out:
+        res.count('runs_watchdog')
+        return
+    if not any(e['ev'] == 'injected_write_fault' for e in run.events):
+        res.count('write_fault_runs_without_injection')
+        return
+    res.count('write_faults_injected')
+    witness = dict(desc)
+    witness.update({'failed_write': k, 'exit_status': run.rc,
+                    'stderr_tail': run.stderr[-500:]})
+    if run.rc == 0 and not run.uncaught_traceback:
+        res.count('runs_that_went_on_after_a_failed_write')
+        # the history is judged as always: the failed write must show
+        check_history(res, run, desc)
+        return
+    ws = sorted((e for e in run.events if e['ev'] == 'write'),
+                key=lambda e: e['seq'])
+    prev = [e for e in ws if e['seq'] == k - 1]
+    on_disk = None if run.out_bytes is None else hashlib.blake2b(
+        run.out_bytes, digest_size=8).hexdigest()
+    want = prev[0]['bd'] if prev else None
+    if on_disk != want:
+        res.violation(
+            'file-after-failed-write-is-not-the-last-written-input',
+            f'write #{k} failed and ddSMT stopped, but the output file is '
+            f'not what write #{k - 1} left', witness)
+
+
 def shard(args):
     res = common.ShardResult()
     r = common.rng('c05', args['shard'])
@@ -272,6 +315,10 @@ def shard(args):
                     'history': {k: v for k, v in s.items()},
                 })
             shutil.rmtree(wd, ignore_errors=True)
+            if i % 4 == 1:
+                wd = os.path.join(base, f'wf{i}')
+                write_fault_case(res, wd, make_case(r), r)
+                shutil.rmtree(wd, ignore_errors=True)
     finally:
         shutil.rmtree(base, ignore_errors=True)
     return res.to_dict()
